@@ -559,7 +559,7 @@ func listNames(dir string) string {
 func gen(r *h.Rand, tier string, emit func([]string)) {
 	n := 90
 	if tier == "thorough" {
-		n = 3000
+		n = 1000
 	}
 	for i := 0; i < n; i++ {
 		switch {
